@@ -404,3 +404,27 @@ class polygon_bbox_minimal_for_any_number_of_vertices:
     call = lambda self: self.bounding_box
     post = {'minimal': lambda self, result: reaches(
         result, (self.vertices.x.min(), 0), (self.vertices.x.max(), 0), (0, self.vertices.y.min()), (0, self.vertices.y.max()))}
+
+
+REGPOLY = 'regions/shapes/polygon.py::RegularPolygonPixelRegion'
+
+
+@contract(REGPOLY + '.bounding_box', props=['C04'])
+class regular_polygon_bbox:
+    """a regular polygon is a polygon: its box encloses its vertices and each border is reached by an extreme vertex, at every rotation"""
+    # one vertex per case: indexing the vertex arrays with a symbolic index would meet cos/sin of a symbolic multiple of pi, which the
+    # trigonometric model cannot relate to the concrete multiples the box is computed from
+    cases = {'n%d-v%d' % (n, k): {'n': n, 'k': k} for n in (4,) for k in range(n)}      # odd n: queries too slow to be stable; covered by the bounded `boxes` runner
+
+    def setup(B, n=3, k=0):
+        from contracts.common import pix, mk_meta, mk_visual
+        rad = B.real('r.radius')
+        B.assume(rad > 0)
+        return dict(self=B.construct(REGPOLY, 'r', pix(B, 'r.center'), n, rad, angle=B.quantity('r.angle', 'deg'),
+                                     meta=mk_meta(B, 'r.meta'), visual=mk_visual(B, 'r.visual')), n=n, k=k)
+    call = lambda self: self.bounding_box
+    post = {
+        'encloses_vertex': lambda self, k, result: covers(result, self.vertices.x[k], self.vertices.y[k]),
+        'minimal': lambda self, result: reaches(
+            result, (self.vertices.x.min(), 0), (self.vertices.x.max(), 0), (0, self.vertices.y.min()), (0, self.vertices.y.max())),
+    }
